@@ -116,9 +116,11 @@ def parse_impl(kind, line):
     if kind in BODY_KINDS:
         d['XV'] = s[1]; d['bf'] = s[2]; d['mf'] = s[3]; d['pe'] = s[4][0]; d['u'] = s[5]; d['npf'] = s[6][0]
         d['X'] = [s[1][18 * i:18 * i + 12] for i in range(nb)]; d['V'] = [s[1][18 * i + 12:18 * i + 18] for i in range(nb)]
+        if len(s) > 7: d['P'], d['dPE'] = s[7][0], s[7][1]
     else:
         d['q'] = s[1]; d['u'] = s[2]; d['qdot'] = s[3]; d['j'] = int(s[4][0]); d['jq'] = int(s[4][1])
         d['mf'] = s[5]; d['bfsum'] = s[6][0]; d['pe'] = s[7][0]
+        if len(s) > 8: d['P'], d['dPE'] = s[8][0], s[8][1]
     return d
 
 def model_line(kind, hl, ep, d):
